@@ -169,10 +169,21 @@ func proposeClasses(prog []pInst, interesting string) [][]int {
 // ("" = take the rule's own); a rule whose parsed pattern differs from it is
 // skipped (renderer problem, never a verdict).
 func exportRule(id int, text, src, wantPat string) (c progCase, err error) {
+	c, _, err = exportRuleObj(id, text, src, wantPat)
+	return c, err
+}
+
+// exportRuleObj also returns the rule object the case was taken from.
+func exportRuleObj(id int, text, src, wantPat string) (c progCase, r *rules.NetworkRule, err error) {
+	c, r, err = exportRuleInner(id, text, src, wantPat)
+	return
+}
+
+func exportRuleInner(id int, text, src, wantPat string) (c progCase, r *rules.NetworkRule, err error) {
 	c = progCase{ID: id, Rule: text, Src: src, Pat: []int{}, Prog: []pInst{}, Classes: [][]int{}, SC: []int{}}
 	r, re, status, panicV, err := compileReal(text)
 	if err != nil {
-		return c, errSkip
+		return c, nil, errSkip
 	}
 	pat := r.VerifPattern()
 	if wantPat != "" {
@@ -181,7 +192,7 @@ func exportRule(id int, text, src, wantPat string) (c progCase, err error) {
 			w = w[:len(w)-2] + "^"
 		}
 		if w != pat {
-			return c, errSkip
+			return c, r, errSkip
 		}
 		pat = wantPat
 	}
@@ -196,14 +207,14 @@ func exportRule(id int, text, src, wantPat string) (c progCase, err error) {
 	}
 	for _, b := range []byte(pat) {
 		if b < 33 || b > 126 {
-			return c, errSkip
+			return c, r, errSkip
 		}
 	}
 	switch {
 	case panicV != "":
 		c.Status = "panic"
 		c.PanicV = panicV
-		return c, nil
+		return c, r, nil
 	case status == 0:
 		c.Status = "any"
 		c.Start = 0
@@ -215,17 +226,17 @@ func exportRule(id int, text, src, wantPat string) (c progCase, err error) {
 	default:
 		prog, perr := progOf(re.String())
 		if perr != nil {
-			return c, fmt.Errorf("regexp/syntax rejects what regexp accepted: %q: %w", re.String(), perr)
+			return c, r, fmt.Errorf("regexp/syntax rejects what regexp accepted: %q: %w", re.String(), perr)
 		}
 		if len(prog.Inst) > maxProgInst {
-			return c, errSkip
+			return c, r, errSkip
 		}
 		c.Status = "ok"
 		c.Start = prog.Start
 		c.Prog = instsOf(prog)
 	}
 	c.Classes = proposeClasses(c.Prog, pat+"htpsw:/."+r.Shortcut)
-	return c, nil
+	return c, r, nil
 }
 
 var maskToks = []string{"a", "B", "1", ".", "?", "+", "(", "[", "{", "\\", "/", "|", "*", "^"}
@@ -286,7 +297,7 @@ func genRegex(rnd *rand.Rand, depth int) string {
 		case 2:
 			return []string{"\\d", "\\w", "\\s", "\\b", "\\D", "\\W", "\\B"}[rnd.Intn(7)]
 		case 3:
-			return []string{"\\x2d", "\\x61", "\\x2F"}[rnd.Intn(3)]
+			return []string{"\\x2d", "\\x61", "\\x2F", "\\u002F", "\\u0062"}[rnd.Intn(5)]
 		default:
 			return lits[rnd.Intn(len(lits))]
 		}
@@ -327,7 +338,7 @@ func genRegex(rnd *rand.Rand, depth int) string {
 
 // exhaustive small regex ASTs: sequences of up to n pieces from a piece alphabet
 func genRegexExh(n int, emit func(string)) {
-	pieces := []string{"ab", "cd", ".", "[a-z]", "\\d", "\\w", "\\b", "\\x2d", "(ef)", "(e|f)", "|", "a*", "b+", "c{0,2}", "(gh)*", "\\.", "\\/"}
+	pieces := []string{"ab", "cd", ".", "[a-z]", "\\d", "\\w", "\\b", "\\x2d", "\\u0062", "(ef)", "(e|f)", "|", "a*", "b+", "c{0,2}", "(gh)*", "\\.", "\\/"}
 	var rec func(prefix string, d int)
 	rec = func(prefix string, d int) {
 		if d > 0 {
@@ -379,12 +390,19 @@ func repoDir() string {
 // vh export-progs kind=mask|sc out=<prefix> chunks=<n> exh=<n> rnd=<n> lists=0|1 regexexh=<n> regexrnd=<n>
 func cmdExportProgs(args []string) error {
 	m := argMap(args)
-	kind := m["kind"]
 	prefix := m["out"]
 	chunks := argInt(m, "chunks", 8)
+	cases, _, skipped, total := generateProgCases(m)
+	return writeProgCases(prefix, chunks, cases, skipped, total)
+}
+
+// generateProgCases builds every rule of the corpus with the real parser, in a fixed order determined by the arguments
+// and the seed, and exports its compiled program.  It is used by the exporter and - so that defects that depend on the
+// order in which rules were parsed reproduce - again by the confirmation step, which keeps the rule objects.
+func generateProgCases(m map[string]string) (cases []progCase, objs map[int]*rules.NetworkRule, skipped, total int) {
+	kind := m["kind"]
+	objs = map[int]*rules.NetworkRule{}
 	rnd := rand.New(rand.NewSource(seed()))
-	var cases []progCase
-	skipped, total := 0, 0
 	seen := map[string]bool{}
 	add := func(text, src, wantPat string) {
 		if seen[text] {
@@ -392,7 +410,7 @@ func cmdExportProgs(args []string) error {
 		}
 		seen[text] = true
 		total++
-		c, err := exportRule(len(cases)+1, text, src, wantPat)
+		c, robj, err := exportRuleObj(len(cases)+1, text, src, wantPat)
 		if err == errSkip {
 			skipped++
 			return
@@ -406,6 +424,7 @@ func cmdExportProgs(args []string) error {
 			return
 		}
 		cases = append(cases, c)
+		objs[len(cases)] = robj
 	}
 	emitMask := func(p string) {
 		if p == "" || isRegexText(p) || strings.HasPrefix(p, "@@") {
@@ -473,6 +492,10 @@ func cmdExportProgs(args []string) error {
 			add(line, src, "")
 		}
 	}
+	return cases, objs, skipped, total
+}
+
+func writeProgCases(prefix string, chunks int, cases []progCase, skipped, total int) error {
 	// re-number and write chunks
 	ws := make([]*ndWriter, chunks)
 	for i := range ws {
@@ -537,12 +560,12 @@ type progConfirm struct {
 func cmdConfirmProgs(args []string) error {
 	m := argMap(args)
 	mode := m["mode"]
-	cases, err := readND[progCase](m["cases"])
-	if err != nil {
-		return err
-	}
+	// regenerate the corpus in the same order: the rule objects are then in the state they were in at export time
+	cases, objs, _, _ := generateProgCases(m)
 	byID := map[int]progCase{}
-	for _, c := range cases {
+	for i, c := range cases {
+		c.ID = i + 1
+		cases[i] = c
 		byID[c.ID] = c
 	}
 	diffs, err := readND[progDiff](m["diffs"])
@@ -564,8 +587,8 @@ func cmdConfirmProgs(args []string) error {
 					pc.Panic = fmt.Sprint(x)
 				}
 			}()
-			r, err := rules.NewNetworkRule(c.Rule, 1)
-			if err != nil {
+			r := objs[c.ID]
+			if r == nil {
 				return
 			}
 			pc.Shortcut = r.Shortcut
